@@ -145,7 +145,9 @@ theorem bal_executeCommand (pf : FloatOracle) (srv : SrvSt) (conn : ConnSt) (cmd
           exact bal_bind0 _ _ (bal_gated _ _ _ (bal_nested1 pf srv conn _ ex args hex)) (fun _ => .ret _)
         · split
           · exact bal_bind0 _ _ (bal_gated _ _ _ (bal_execHLen pf srv conn args)) (fun _ => .ret _)
-          · exact .ret _
+          · split
+            · exact bal_bind0 _ _ (bal_gated _ _ _ (bal_lift _)) (fun _ => .ret _)
+            · exact .ret _
 
 theorem bal_handleArray (pf : FloatOracle) (srv : SrvSt) (conn : ConnSt) (f : Nat) (es : List Msg) :
     Bal 0 (handleArray pf srv conn f es) := by
